@@ -37,5 +37,8 @@ NameCase(mth) ==
   LET s == Shape(ms, mth)
   IN [members |-> ms, method |-> mth,
       names |-> [nm \in Names |-> [look |-> Lookup(s, nm), fld |-> LookupField(s, nm).res = "field" /\ IsExported(nm), byval |-> Usable(s, nm, FALSE), byptr |-> Usable(s, nm, TRUE)]]]
+MapCase(s) == [kind |-> "map", named |-> s.named, elem |-> s.elem, method |-> s.method,
+               names |-> [nm \in MapNames |-> MapLookup(s, nm)]]
+EmitMaps == (ms = <<>> /\ NamesEmit = "cases") => \A s \in {x \in MapShapes : LegalMapShape(x)} : PrintT(ToJson(MapCase(s)))
 EmitNames == (Len(ms) >= 1 /\ NamesEmit = "cases") => \A mth \in {"none", "val", "ptr"} : PrintT(ToJson(NameCase(mth)))
 =============================================================================
